@@ -53,6 +53,7 @@ def install():
               "process_pool_executor_at_exit", "_process_worker", "_python_exit", "_USE_PSUTIL"):
         _need(pe, n)
     _need(re_, "time", types.ModuleType)
+    _need(re_, "warnings", types.ModuleType)
     _need(re_, "threading", types.ModuleType)
     for n in ("_executor_lock", "_executor", "_executor_kwargs", "_next_executor_id", "cpu_count"):
         _need(re_, n)
@@ -86,6 +87,7 @@ def install():
     re_.time = prims.TIME
     re_.threading = prims.THREADING
     re_.cpu_count = lambda *a, **k: (_w.W.cpu_count if _w.W is not None else 2)
+    re_.warnings = _TaskWarnings()
     lq.threading = prims.THREADING
     mpq.threading = prims.THREADING
     mpq.time = prims.TIME
@@ -98,6 +100,26 @@ def install():
     cfb.threading = prims.THREADING
     logging.getLogger("concurrent.futures").disabled = True
     _installed = True
+
+
+class _TaskWarnings:
+    """`warnings` as seen by loky.reusable_executor: a task that runs with "warnings as errors" (the `warn_error` option
+    of a get op, i.e. `-W error` / simplefilter("error") around that call) gets the warning raised; everybody else gets
+    the ordinary module.  (The real filter list is process-global; the per-task flag keeps the other threads' warnings
+    out of the generated domain.)"""
+
+    def __getattr__(self, name):
+        import warnings
+        return getattr(warnings, name)
+
+    def warn(self, message, category=UserWarning, *a, **k):
+        import warnings
+        w = _w.W
+        t = w.cur if w is not None else None
+        if t is not None and getattr(t, "warn_error", False):
+            raise (message if isinstance(message, Warning) else (category or UserWarning)(message))
+        k.setdefault("stacklevel", 2)
+        return warnings.warn(message, category, *a, **k)
 
 
 def reset_module_state():
